@@ -236,7 +236,9 @@ func desIntOps(c *Ctx) {
 }
 
 func suiteScheme(c *Ctx) {
-	desIntOps(c)
+	if c.Scheme(0) { // scheme-independent part: first shard
+		desIntOps(c)
+	}
 	if h, ok := c.Replay["hash"]; ok {
 		for _, api := range schemeAPIs {
 			if api.name == c.Replay["scheme"] {
@@ -252,7 +254,10 @@ func suiteScheme(c *Ctx) {
 			pwLens = append(pwLens, l)
 		}
 	}
-	for _, api := range schemeAPIs {
+	for sidx, api := range schemeAPIs {
+		if !c.Scheme(sidx) {
+			continue
+		}
 		for li, l := range pwLens {
 			if l > api.maxPw {
 				l = api.maxPw - (li % 3)
@@ -412,7 +417,10 @@ func equivDES(a, b []byte) bool {
 // against the model.
 func suiteClassify(c *Ctx) {
 	editAlpha := []byte("$,=_09aZ./+@\x00\xff")
-	for _, api := range schemeAPIs {
+	for sidx, api := range schemeAPIs {
+		if !c.Scheme(sidx) {
+			continue
+		}
 		// canonical hashes: generated, plus accepted non-canonical spellings
 		pw := "pa55w0rd"
 		var hashes []string
